@@ -1,5 +1,5 @@
 (* C14 — proofs about Model/Verify.v. Every statement is for arbitrary crypto/x509 behaviour: the verifier,
-   VerifyHostname, NotAfter, the chain pre-checks and hostnameInSNI are Section variables. *)
+   VerifyHostname, NotAfter, the chain pre-checks and the name that went into SNI are Section variables. *)
 From UV Require Import Base.Common Model.Verify.
 From Coq Require Import ZifyBool ZifyNat ZifyN.
 Open Scope Z_scope.
@@ -26,10 +26,10 @@ Section VerifyP.
   Variable not_after : cert -> Z.
   Variable chain_parses : list cert -> bool.
   Variable leaf_key_supported : cert -> bool.
-  Variable hostname_in_sni : name -> name.
+  Variable sni : name.                               (* what went into SNI: arbitrary *)
 
   Notation config := (config pool).
-  Notation conn_at_verify := (conn_at_verify hostname_in_sni).
+  Notation conn_at_verify := (conn_at_verify sni).
   Notation verify_opts := (verify_opts cert pool not_after).
   Notation verify_opts_unfixed := (verify_opts_unfixed cert pool not_after).
   Notation used_name := (used_name cert pool not_after).
@@ -181,7 +181,7 @@ Section VerifyP.
     (is_ok (verify_server_certificate cfg c (leaf :: rest)) = true <->
      (ech_rejected cfg c = false /\ InsecureSkipVerify cfg = true) \/
      x509_verify (RootCAs cfg) (expected_time cfg leaf) (dns_of_name (expected_name cfg c pub)) (leaf :: rest) = true).
-  Proof using cert pool x509_verify not_after chain_parses leaf_key_supported hostname_in_sni.
+  Proof using cert pool x509_verify not_after chain_parses leaf_key_supported sni.
     intros Hacc Hpub Hp Hk Hcb Hvc c Hc.
     rewrite (verify_ok_iff cfg c leaf rest Hp Hk Hcb Hvc).
     destruct (ech_rejected cfg c) eqn:Hrej.
@@ -239,7 +239,7 @@ Section VerifyP.
     forall c, c = conn_at_verify cfg pub accepted ->
     x509_verify (RootCAs cfg) (expected_time cfg leaf) (dns_of_name (expected_name cfg c pub)) (leaf :: rest) = true ->
     client_result cfg c (leaf :: rest) = (if ech_rejected cfg c then HsEchRejected else HsOk).
-  Proof using cert pool x509_verify not_after chain_parses leaf_key_supported hostname_in_sni.
+  Proof using cert pool x509_verify not_after chain_parses leaf_key_supported sni.
     intros Hacc Hpub Hp Hk Hcb Hvc c Hc Hx.
     assert (Hok : is_ok (verify_server_certificate cfg c (leaf :: rest)) = true).
     { apply (decision cfg pub accepted leaf rest Hacc Hpub Hp Hk Hcb Hvc c Hc). right. exact Hx. }
